@@ -176,14 +176,14 @@ Proof. intros w. unfold inst_send_offer. destruct (get_inst i w); [apply C_queue
 Lemma C_inst_start i : C (fun w => fst (inst_start i w)).
 Proof.
   intros w. unfold inst_start. destruct (get_inst i w) as [ins|]; [|apply cext_refl].
-  destruct (in_task ins); [cbn [fst]; apply C_neutral, n_emit|].
+  destruct (in_task ins); [cbn [fst]; apply C_neutral, n_emit; reflexivity|].
   destruct (new_task (TOffer i) w) as [t w1] eqn:E0. cbn [fst]. pair_C (C_new_task (TOffer i) w) E0.
   eapply cext_trans; [exact K|apply C_put_inst].
 Qed.
 Lemma C_inst_stop i : C (fun w => fst (inst_stop i w)).
 Proof.
   intros w. unfold inst_stop. destruct (get_inst i w) as [ins|]; [|apply cext_refl].
-  destruct (in_task ins) as [t|]; [|cbn [fst]; apply C_neutral, n_emit]. cbn [fst].
+  destruct (in_task ins) as [t|]; [|cbn [fst]; apply C_neutral, n_emit; reflexivity]. cbn [fst].
   eapply cext_trans; [|apply C_store_stop_all].
   set (w1 := put_inst i _ (cancel_task t w)). assert (H1 : cext w w1) by (eapply cext_trans; [apply C_cancel_task|apply C_put_inst]).
   destruct (t_cyclic (cfg w1) =? 0); [eapply cext_trans; [exact H1|apply C_inst_send_offer]|exact H1].
@@ -214,7 +214,7 @@ Proof.
 Qed.
 Lemma C_stop_announce_service i b : C (stop_announce_service i b).
 Proof.
-  intros w. unfold stop_announce_service. destruct (remove_first N.eqb i (announcing w)); [|apply C_neutral, n_emit].
+  intros w. unfold stop_announce_service. destruct (remove_first N.eqb i (announcing w)); [|apply C_neutral, n_emit; reflexivity].
   destruct (b && ann_started (set_announcing l w)); [eapply cext_trans; [apply C_neutral, n_set_announcing|apply C_inst_stop]|apply C_neutral, n_set_announcing].
 Qed.
 Lemma C_inst_handle_subscribe e a i : C (fun w => fst (inst_handle_subscribe e a i w)).
